@@ -298,8 +298,16 @@ class CircuitTemplate(AbstractBaseTemplate):
                 warn(PyRatesWarning(f'Variable {var} has not been found on operator {op} of node {node[0]}.'))
             n_nodes = len(target_nodes)
             for i, n in enumerate(target_nodes):
-                node_temp = deepcopy(self.get_node_template(n))
                 val_tmp = val[i] if hasattr(val, 'shape') and sum(val.shape) == n_nodes else val
+                if n in self.populations:
+                    # the units of a population take their values from the parameters of the population (one value for all
+                    # units or one per unit); the population object may be shared with other circuits, so it is copied
+                    pop = copy(self.populations[n])
+                    pop.params = dict(pop.params)
+                    pop.params[f"{op}/{var}"] = val_tmp
+                    self.populations[n] = pop
+                    continue
+                node_temp = deepcopy(self.get_node_template(n))
                 node_temp.update_var(op=op, var=var, val=val_tmp)
                 self.add_node_template(n, template=node_temp)
 
